@@ -23,6 +23,7 @@ the generated constants (`C18_source_constants`) and in the non-vacuity examples
 -/
 import Proofs.Globals
 import Generated.Env
+import Generated.ProcessState
 namespace FV
 open FV.Env
 
@@ -236,5 +237,102 @@ theorem C18_iteration_counter_harmless (c n : Nat) :
 
 example : tagsFrom 7 3 = [8, 9, 10] ∧ tagPattern [8, 9, 8, 10] = [0, 1, 0, 3]
     ∧ tagPattern [1, 2, 1, 3] = [0, 1, 0, 3] := by decide
+
+/-! ## 5. the inventory of process-wide state is complete (checked, not assumed) -/
+
+/-- REVIEWED inventory of every place in src/fandango where state can outlive one spec object (format and scope:
+    harness/translate_globals.py).  Why none of them carries solutions or parse results from one instance to another:
+    * `cli/…` — command-line shell only (`fandango shell` session settings, completion matches, progress colours, update notice): not reachable from spec objects used through the API; by design the shell's `set` persists for the session
+    * `constraints/…` — mutable DEFAULT ARGUMENTS (`= dict()`, `= []`) of constraint / fitness constructors: stored, never mutated in place (every writer builds a new list: evaluation.py / comparison.py extend locals); latent, watched by C11's fresh-vs-cached differential
+    * `evolution/algorithm.py…` — the default search operators `SimpleMutation()` / `SimpleSubtreeCrossover()` are ONE object for all instances: harmless exactly while these classes have no instance state — the `{}` in the entry is their list of `self.` attributes
+    * `evolution/havoc.py…` — constant table and the default list of havoc mutation functions (read only)
+    * `io/…` — `FandangoIO._instances` / `ProcessManager._instances` are keyed by the environment key of the spec object (fix a511dc56; modelled as `ioInst` in Model/Globals); `CURRENT_ENV_KEY` is a ContextVar holder set around every entry point
+    * `language/grammar/…` — `NonTerminal("<start>")` default arguments (immutable symbols); `NODE_SETTINGS_DEFAULTS` constant table; `raw_settings = {}` / `searches_map = {}` defaults are read, never written
+    * `language/parse/…` — list / dict default arguments of the spec front end: read and copied, never mutated
+    * `language/parser/FandangoLexerBase.py…` — `global lexer` statements in the ANTLR action stubs (a name used by the generated lexer's embedded actions; rebound per lexer instance before use)
+    * `language/stdlib.py…` — the standard-library rules, built once at import and deep-copied into each grammar
+    * `language/tree_value.py…` — constant method tables; `trailing_bits = []` default is stored but never mutated in place (C09: `append` returns new lists; mutation detector in the C09 correspondence)
+    * `logger.py…` — terminal visualisation flags (no influence on solutions or parse results)
+    The model's `World` threads exactly the entries that DO matter (cap, tuner, iteration counters, IO instances). -/
+def reviewedProcessState : List String := [
+  "cli/commands.py::COMMANDS::module::container",
+  "cli/commands.py::DEFAULT_CONSTRAINTS::module::container",
+  "cli/commands.py::DEFAULT_SETTINGS::module::container",
+  "cli/commands.py::reset_command::global::DEFAULT_CONSTRAINTS",
+  "cli/commands.py::reset_command::global::DEFAULT_SETTINGS",
+  "cli/commands.py::set_command::global::DEFAULT_CONSTRAINTS",
+  "cli/commands.py::set_command::global::DEFAULT_FAN_CONTENT",
+  "cli/commands.py::set_command::global::DEFAULT_SETTINGS",
+  "cli/progress.py::FITNESS::module::container",
+  "cli/shell.py::MATCHES::module::container",
+  "cli/shell.py::_complete::global::MATCHES",
+  "cli/shell.py::shell_command::global::MATCHES",
+  "cli/upgrade.py::check_for_fandango_update::global::NOTIFIED_IN_THIS_SESSION",
+  "cli/utils.py::exec_single::default::container",
+  "cli/utils.py::make_fandango_settings::default::container",
+  "cli/utils.py::parse_constraints_from_args::default::container",
+  "cli/utils.py::parse_contents_from_args::default::container",
+  "constraints/comparison.py::__init__::default::container",
+  "constraints/fitness.py::__init__::default::container",
+  "evolution/algorithm.py::__init__::default::call:SimpleMutation{}",
+  "evolution/algorithm.py::__init__::default::call:SimpleSubtreeCrossover{}",
+  "evolution/havoc.py::INTERESTING_VALUES::module::container",
+  "evolution/havoc.py::havoc_mutate::default::call:havoc_mutations",
+  "io/__init__.py::CURRENT_ENV_KEY::module::call:EnvContext{}",
+  "io/__init__.py::EnvContext.contextVar::class::call:ContextVar",
+  "io/__init__.py::FandangoIO._instances::class::container",
+  "io/__init__.py::ProcessManager._instances::class::container",
+  "io/navigation/grammarnavigator.py::__init__::default::call:NonTerminal{_is_regex,_type,_value}",
+  "io/navigation/packetnavigator.py::__init__::default::call:NonTerminal{_is_regex,_type,_value}",
+  "io/navigation/stategrammarconverter.py::process::default::call:NonTerminal{_is_regex,_type,_value}",
+  "language/grammar/grammar.py::compute_kpath_coverage::default::call:NonTerminal{_is_regex,_type,_value}",
+  "language/grammar/grammar.py::generate_all_k_paths::default::call:NonTerminal{_is_regex,_type,_value}",
+  "language/grammar/grammar.py::get_protocol_messages::default::call:NonTerminal{_is_regex,_type,_value}",
+  "language/grammar/grammar.py::get_uncovered_k_paths::default::call:NonTerminal{_is_regex,_type,_value}",
+  "language/grammar/grammar.py::set_generator::default::container",
+  "language/grammar/nodes/node.py::NODE_SETTINGS_DEFAULTS::module::container",
+  "language/grammar/nodes/node.py::__init__::default::container",
+  "language/parse/parse.py::check_grammar_consistency::default::container",
+  "language/parse/parse.py::check_grammar_definitions::default::container",
+  "language/parse/parse.py::parse::default::container",
+  "language/parse/parse_spec.py::parse_content::default::container",
+  "language/parse/spec.py::__init__::default::container",
+  "language/parser/FandangoLexerBase.py::__init__::global::lexer",
+  "language/parser/FandangoLexerBase.py::at_start_of_input::global::lexer",
+  "language/parser/FandangoLexerBase.py::close_brace::global::lexer",
+  "language/parser/FandangoLexerBase.py::filepath_end::global::lexer",
+  "language/parser/FandangoLexerBase.py::filepath_start::global::lexer",
+  "language/parser/FandangoLexerBase.py::fstring_end::global::lexer",
+  "language/parser/FandangoLexerBase.py::fstring_start::global::lexer",
+  "language/parser/FandangoLexerBase.py::is_not_fstring::global::lexer",
+  "language/parser/FandangoLexerBase.py::on_newline::global::lexer",
+  "language/parser/FandangoLexerBase.py::open_brace::global::lexer",
+  "language/parser/FandangoLexerBase.py::python_end::global::lexer",
+  "language/parser/FandangoLexerBase.py::python_start::global::lexer",
+  "language/stdlib.py::ASCII_CONTROL::module::container",
+  "language/stdlib.py::any_char::module::call:make_rule",
+  "language/stdlib.py::ascii_char::module::call:make_rule",
+  "language/stdlib.py::bits::module::call:make_rule",
+  "language/stdlib.py::bytes::module::call:make_rule",
+  "language/stdlib.py::dancer::module::call:make_rule",
+  "language/stdlib.py::numbers::module::call:make_rule",
+  "language/stdlib.py::printable::module::call:make_rule",
+  "language/stdlib.py::utf8::module::call:make_rule",
+  "language/tree_value.py::DIRECT_ACCESS_METHODS_BASE_TO_FIRST_ARG_TYPE::module::container",
+  "language/tree_value.py::DIRECT_ACCESS_METHODS_BASE_TO_UNDERLYING_TYPE::module::container",
+  "language/tree_value.py::__init__::default::container",
+  "logger.py::clear_visualization::global::LINE_IS_CLEAR",
+  "logger.py::set_visualization::global::USE_VISUALIZATION",
+  "logger.py::use_visualization::global::COLUMNS",
+  "logger.py::use_visualization::global::LINES",
+  "logger.py::use_visualization::global::USE_VISUALIZATION",
+  "logger.py::visualize_evaluation::global::LINE_IS_CLEAR"
+]
+
+/-- the inventory regenerated from the CURRENT source is the reviewed one: a new module-level / class-level cache,
+    registry or counter, a new shared default-argument object, instance state added to a process-lived operator
+    object, or a new memoised function changes `Generated.processState` and breaks this obligation (the check then
+    searches for a pair of spec objects that shows the leak) -/
+theorem C18_process_state_inventory_pinned : Generated.processState = reviewedProcessState := by decide +kernel
 
 end FV
